@@ -1,8 +1,8 @@
 (* C04 — computed layout = the reference C layout (and, through the layout suite, the compiler's).
    This file holds only the pinned statements; proofs are in Proofs/LayoutFacts.v. *)
 From Coq Require Import NArith List.
-From Flatty.Model Require Import Base Ty Layout RefLayout.
-From Flatty.Proofs Require Import ArithFacts LayoutFacts.
+From Flatty.Model Require Import Base Ty Layout RefLayout Validate View.
+From Flatty.Proofs Require Import ArithFacts LayoutFacts ViewFacts.
 Open Scope N_scope.
 
 (* ALIGN is the C alignment, for every descriptor *)
@@ -31,6 +31,17 @@ Proof. exact data_offset_c. Qed.
 Theorem c04_align_pow2 : forall t, wf t = true -> P16 (align t).
 Proof. exact align_P16. Qed.
 
+(* a mapped unsized value never claims more bytes than the slice it was mapped from: the length of
+   as_bytes() (= size_of_val of the reference ptr_from_bytes builds) of a value obtained by from_bytes
+   is defined, at most the length of the slice, at least size(), for every buffer length, multiple
+   of the alignment or not *)
+Theorem c04_view_within : forall t a bs, wf t = true -> validate t a bs = Ok tt ->
+  exists n k, bytes_len t (blen bs) = Ok n /\ size_m t bs = Ok k /\ n <= blen bs /\ k <= n.
+Proof.
+  intros t a bs Hw Hv. destruct (as_bytes_roundtrip t a bs Hw Hv) as (n & k & H1 & H2 & H3 & H4 & _).
+  exists n, k. auto.
+Qed.
+
 (* non-vacuity: a concrete definition meets the hypotheses and has padding in it *)
 Definition ex_u8 := TInt {| isize := 1; ialign := 1; ibe := false |}.
 Definition ex_u32 := TInt {| isize := 4; ialign := 4; ibe := false |}.
@@ -48,3 +59,4 @@ Print Assumptions c04_positions.
 Print Assumptions c04_vec_data_offset.
 Print Assumptions c04_enum_data_offset.
 Print Assumptions c04_align_pow2.
+Print Assumptions c04_view_within.
